@@ -183,6 +183,26 @@ func cmdVC(args []string) {
 			}
 		}
 	}
+	// slowest obligations
+	type sl struct {
+		name string
+		secs float64
+		solver string
+	}
+	var slow []sl
+	for _, ob := range all {
+		r := res[ob]
+		if r.Seconds > 1.0 {
+			slow = append(slow, sl{ob.Name, r.Seconds, r.Solver + ":" + r.Status})
+		}
+	}
+	sort.Slice(slow, func(i, j int) bool { return slow[i].secs > slow[j].secs })
+	for i, s := range slow {
+		if i >= 15 {
+			break
+		}
+		fmt.Printf("  slow %.1fs %s %s\n", s.secs, s.solver, s.name)
+	}
 	fmt.Printf("%d obligation names, %d queries, %d not discharged, %.1fs\n", len(names), len(all), nbad, time.Since(t0).Seconds())
 }
 
